@@ -184,6 +184,9 @@ namespace cppcms {
 				int group);
 
 	private:
+		std::pair<bool,std::string> match_ranges(	char const *hb,char const *he,
+								char const *sb,char const *se,
+								char const *pb,char const *pe) const;
 		booster::regex host_;
 		booster::regex script_name_;
 		booster::regex path_info_;
